@@ -11,7 +11,7 @@ meta = {
     "confirmed": {"suite_with_change": suite.group(1) if suite else None, "demo": verdict.group(1) if verdict else None,
                   "how": "tools/confirm_mutant.sh (demo with/without the change, full non-java suite with the change) in the scratch worktree"},
     "caught_by": [c for c in caught.split(",") if c],
-    "ran": "tools/run_on_mutant.sh (git -C /repo apply patch.diff; ./check <ID> --tier quick; revert)",
+    "ran": "tools/run_on_mutant.sh (git -C /repo apply patch.diff; ./check <ID> --tier quick; revert) or tools/run_on_mutant_wt.sh (same checks with KVERIF_REPO pointing at a throw-away worktree with the patch applied)",
     "files": sorted(os.listdir(d)),
 }
 json.dump(meta, open(f"{d}/meta.json", "w"), indent=1)
